@@ -114,6 +114,7 @@ type scanResult struct {
 	comments []string // comment texts in order
 	oddLit   bool     // a string / raw string literal contains a control character (tab, newline, ...)
 	oddCm    bool     // a comment contains a control character
+	lay      string   // round 5: blank-line layout of the non-comment tokens (see layoutOf)
 }
 
 func hasCtl(s string) bool { return strings.ContainsAny(s, "\t\n\r\f\v") }
@@ -189,8 +190,38 @@ func scanAll(src string) (res scanResult) {
 		}
 		res.words = append(res.words, fmt.Sprintf("%s|%d|%d|'%s", k, nl, cm, esc(tok.Text)))
 	}
+	res.lay = layoutOf(src, raw)
 	res.status = "ok"
 	return
+}
+
+// layoutOf (round 5): the vertical layout of a text as the scanner sees it: `first` = line of the first non-comment
+// token, `blank` = every non-comment token (index among the non-comment tokens) that stands two or more lines below
+// the previous non-comment token, with that distance (a comment in between counts like any other line), `trail` =
+// number of line feeds at the end of the text, `lines` = number of line feeds in all. The driver's statement-level
+// model of AST.Format (Layout.lean) predicts `first`, the distance in front of every top-level statement and `trail`
+// for comment-free programs.
+func layoutOf(src string, raw []token.Token) string {
+	first, prev, idx := 0, 0, 0
+	var blank []string
+	for _, tok := range raw {
+		if tok.Type == token.COMMENT || tok.Type == token.DOCUMENT {
+			continue
+		}
+		if idx == 0 {
+			first = tok.Position.Line
+		} else if d := tok.Position.Line - prev; d >= 2 {
+			blank = append(blank, fmt.Sprintf("%d:%d", idx, d))
+		}
+		prev = tok.Position.Line
+		idx++
+	}
+	trail := len(src) - len(strings.TrimRight(src, "\n"))
+	b := "-"
+	if len(blank) > 0 {
+		b = strings.Join(blank, ",")
+	}
+	return fmt.Sprintf("first=%d trail=%d lines=%d blank=%s", first, trail, strings.Count(src, "\n"), b)
 }
 
 type dumper struct{ w []string }
@@ -474,6 +505,9 @@ func observe(src string) string {
 	}
 	w = append(w, "A2")
 	w = append(w, a2...)
+	if sc2.status == "ok" {
+		w = append(w, "LAY", sc2.lay)
+	}
 	if idem == "0" && fs2 == "ok" {
 		w = append(w, "OUT1", "'"+esc(out), "OUT2", "'"+esc(out2))
 	}
